@@ -137,6 +137,25 @@ def parseOp (toks : List String) : Option Op :=
   | some "closeweb" => some (.closeweb k)
   | _ => none
 
+/-- Raw API calls outside the protocol: the picker's own functions on arbitrary arguments. -/
+def rawStep (s : State) (toks : List String) : Option (R (State × String)) :=
+  let p := kvNat toks "p"; let i := kvNat toks "i"; let k := kvNat toks "k"
+  let guardP (r : R State) : Option (R (State × String)) :=
+    if p < s.np then some (r.map (·, "ok")) else some (.ok (s, "skip"))
+  match toks.head? with
+  | some "rawsnub" => guardP (handleSnubbed s p i)
+  | some "rawchoke" => guardP (handleChoke s p i)
+  | some "rawunchoke" => guardP (handleUnchoke s p i)
+  | some "rawcancel" => guardP (handleCancelDownload s p i)
+  | some "rawhave" => if i < s.n then guardP (handleHave s p i) else some (.ok (s, "skip"))
+  | some "rawstopat" =>
+    if p < s.np ∧ k < s.ns then
+      some (match webseedStopAt s k i with
+        | .ok (s1, c) => .ok (s1, "stop=" ++ boolStr c)
+        | .error _ => .error "stopat")
+    else some (.ok (s, "skip"))
+  | _ => none
+
 def showObs : Obs → String
   | .done => "ok"
   | .skip => "skip"
@@ -150,6 +169,7 @@ def panicKind (m : String) : String :=
   else if m = "peer snubbed while choked" then "snubbed-while-choked"
   else if m = "invalid source in piece" then "invalid-source"
   else if m = "already downloading from webseed url" then "already-downloading"
+  else if m = "stopat" then "stopat"
   else "nil"
 
 def showOut : R (State × Obs) → String
@@ -162,6 +182,7 @@ structure St where
   model : Option State := none
   impl : Option State := none      -- the implementation's previous dumped state
   dead : Bool := false
+  raw : Bool := false              -- a raw API call happened: invariants are no longer expected
   tags : List String := []
 
 def addTag (st : St) (t : String) : St := if st.tags.contains t then st else { st with tags := t :: st.tags }
@@ -208,14 +229,22 @@ def step (st : St) (op implObs : String) : St × String × List String :=
     let s := normalise (newState toks)
     let out := "ok " ++ dump s
     let viol := oracle s none none implRes itoks
-    ({ st with model := some s, impl := some (parseDump s itoks), dead := false }, out, viol)
+    ({ st with model := some s, impl := some (parseDump s itoks), dead := false, raw := false }, out, viol)
   else
   match st.model with
   | none => (st, "nostate", [])
   | some s =>
     if st.dead then (st, "dead", []) else
+    match rawStep s toks with
+    | some r =>
+      -- outside the protocol: correspondence only, and the oracle is switched off for the rest of the case
+      let st := addTag { st with raw := true } "raw-api-call"
+      match r with
+      | .ok (s1, res) => let s1 := normalise s1; ({ st with model := some s1 }, res ++ " " ++ dump s1, [])
+      | .error m => ({ st with dead := true }, "panic:" ++ panicKind m, [])
+    | none =>
     let mop := parseOp toks
-    let viol := oracle s st.impl mop implRes itoks
+    let viol := if st.raw then [] else oracle s st.impl mop implRes itoks
     let implSt := if implRes.startsWith "panic:" ∨ implRes = "dead" then st.impl else some (parseDump s itoks)
     match mop with
     | none => ({ st with impl := implSt }, "skip " ++ dump s, viol)
